@@ -14,7 +14,9 @@ import (
 
 // raceRun (thorough tier): builds cmd/c10race with the Go race detector and runs it:
 // N goroutines x {decode, MIC, encrypt/validate on distinct values, RegisterProprietaryMACCommand,
-// GetMACPayloadAndSize} with randomized yields. A reported race is a failure. This is supporting
+// GetMACPayloadAndSize, decoding proprietary commands of one shared (direction, CID), keeping a frame with
+// encrypted FOpts across other goroutines' encryptions} with randomized yields. A reported race or a value that
+// changed under its owner (exit code 3) is a failure. This is supporting
 // evidence for the lock-discipline theorem, not a proof (Go memory model / scheduler not modelled).
 func (h *H) raceRun() {
 	note := func(s string) { h.s.Extra["race_run"] = s }
